@@ -581,6 +581,62 @@ int main(int argc, char** argv) {
         return 0;
     }
     run.parallel("sim", (int64_t)cases.size(), body);
+    // ---- every derivative order every leaf and every arithmetic combination offers: getValue(s, k) for k = 0..min(getNumTimeDerivatives(), 6),
+    //      and k-fold nested Differentiate (k <= 4) over operands that supply their own derivatives, against closed forms
+    {
+        struct DItem { int kind, slot, comb; };   // kind: 0 Constant, 1 Time, 2 Sinusoid; comb: 0 leaf, 1 Plus(leaf, Sinusoid slot+1), 2 Minus(Time, leaf), 3 Scale(-1.7, leaf)
+        std::vector<DItem> items;
+        for (int kind = 0; kind < 3; ++kind) for (int slot = 0; slot < (kind == 1 ? 1 : 3); ++slot) for (int comb = 0; comb < 4; ++comb) items.push_back({kind, slot, comb});
+        run.parallel("derivative-orders", (int64_t)items.size(), [&](int64_t idx) {
+            const DItem it = items[idx];
+            static const char* kn[3] = {"Constant", "Time", "Sinusoid"}; static const char* cn[4] = {"leaf", "Plus(leaf,Sinusoid)", "Minus(Time,leaf)", "Scale(-1.7,leaf)"};
+            const std::string where = std::string("leaf=") + kn[it.kind] + "#" + std::to_string(it.slot) + " comb=" + cn[it.comb];
+            auto wh = [&] { return where; }; auto rp = [&] { return run.replayHeader() + "case=" + where + "\n"; };
+            odesys::OdeSystem sys(1, 0, [](Real, const Vector&, const Vector&, const Vector&, const Vector&, Vector& udot, Vector&) { udot = 0; });
+            Subsystem& sub = sys.updDefaultSubsystem();
+            // closed form of the k-th derivative of a leaf at time t
+            auto leafD = [&](int kind, int slot, int k, double t) -> long double {
+                if (kind == 0) return k == 0 ? (long double)PP->c[slot][0] : 0.0L;
+                if (kind == 1) return k == 0 ? (long double)t : k == 1 ? 1.0L : 0.0L;
+                const long double a = PP->a[slot], w = PP->w[slot], p = PP->p[slot];
+                return a * powl(w, k) * sinl(w * t + p + k * 1.57079632679489661923132169163975144L);
+            };
+            auto mk = [&](int kind, int slot) -> Measure_<Real> {
+                if (kind == 0) return Measure_<Real>::Constant(sub, PP->c[slot][0]);
+                if (kind == 1) return Measure::Time(sub);
+                return Measure::Sinusoid(sub, PP->a[slot], PP->w[slot], PP->p[slot]); };
+            Measure_<Real> leaf = mk(it.kind, it.slot), m = leaf;
+            const int s2 = (it.slot + 1) % 3;
+            if (it.comb == 1) m = Measure_<Real>::Plus(sub, leaf, mk(2, s2));
+            else if (it.comb == 2) m = Measure_<Real>::Minus(sub, mk(1, 0), leaf);
+            else if (it.comb == 3) m = Measure_<Real>::Scale(sub, -1.7, leaf);
+            auto refD = [&](int k, double t) -> long double {
+                const long double l = leafD(it.kind, it.slot, k, t);
+                if (it.comb == 1) return l + leafD(2, s2, k, t);
+                if (it.comb == 2) return leafD(1, 0, k, t) - l;
+                if (it.comb == 3) return -1.7L * l;
+                return l; };
+            std::vector<Measure_<Real>> nest; nest.push_back(m);
+            for (int k = 1; k <= 4; ++k) nest.push_back(Measure_<Real>::Differentiate(sub, nest.back()));
+            State s = sys.makeState(0, Vector(1, 0.0), Vector(1, 1.0), Vector());
+            const int nd = std::min(m.getNumTimeDerivatives(), 6);
+            run.evaluation(verif::hashStr(where), true);
+            run.count(std::string("derivative-orders-offered:") + kn[it.kind] + "/" + cn[it.comb] + "=" + std::to_string(m.getNumTimeDerivatives()));
+            for (double t : {0.0, 0.13, 0.5, 0.77, 1.0}) {
+                s.updTime() = t; sys.realize(s, Stage::Velocity);
+                for (int k = 0; k <= nd; ++k) {
+                    const long double r = refD(k, t); long double sc = 1; for (int j = 0; j < 3; ++j) sc += fabsl((long double)PP->a[j]) * powl(fabsl((long double)PP->w[j]), k);
+                    run.residual("derivative-order/getValue(s,k)/k=" + std::to_string(k), (double)(fabsl((long double)m.getValue(s, k) - r) / sc), 1e-13, wh, rp);
+                }
+                for (int k = 1; k <= 4 && k <= m.getNumTimeDerivatives(); ++k) {
+                    if (nest[k].isEmptyHandle()) break;
+                    const long double r = refD(k, t); long double sc = 1; for (int j = 0; j < 3; ++j) sc += fabsl((long double)PP->a[j]) * powl(fabsl((long double)PP->w[j]), k);
+                    if (Measure_<Real>::Differentiate::getAs(nest[k]).isUsingApproximation()) { run.count("unspecified:nested-differentiate-uses-approximation/k=" + std::to_string(k)); break; }
+                    run.residual("derivative-order/nested-Differentiate/k=" + std::to_string(k), (double)(fabsl((long double)nest[k].getValue(s) - r) / sc), 1e-13, wh, rp);
+                }
+            }
+        });
+    }
     run.extraCoverage["trees_real"] = std::to_string(treesR.size());
     run.extraCoverage["trees_vec3"] = std::to_string(treesV.size());
     run.extraCoverage["unexercisable_clause"] = "\"SampleAndHold: declared in Measure.h, no Implementation in the tree\"";
